@@ -17,7 +17,7 @@ Definition judge_action (c e : Z) (b : abind) (o : out) : list (Z * bool) :=
       match first_mod_in (ab_mods b) lg, last_mod_out (ab_mods b) lg, results_of (ab_conds b) lg with
       | Some merged, Some vfinal, Some ars =>
           (2, veqb (sn_value s) (convert d vfinal)) ::
-          (if regular d (aid_accum a) contrib then
+          (if regular d (aid_accum a) rows then
              [ (1, veqb merged (merged_value d (aid_accum a) contrib));
                (4, state_eqb (sn_state s) (law (flat_map rw_res contrib ++ ars) vfinal)) ]
            else [])
